@@ -215,7 +215,7 @@ def c08(ctx):
             top = common.top_fn(F, fn)
             ok = top.path in allowed
             rep.ob("C08.R3", "construct::%s" % top.path, ok, "" if ok else "%s constructs an Environment directly" % top.path, fn.loc(s.get("line")), how="Environment::raw")
-    rep.floor("C08.R3", n_acc, 2, "accesses of the stream fields")
+    rep.floor("C08.R3", n_acc, 1, "accesses of the stream fields")
     adt = F.adts.get(ENV)
     if adt:
         fields = {f["name"]: F.ty(f["ty"]) for f in adt["variants"][0]["fields"]}
@@ -230,7 +230,7 @@ def c08(ctx):
         ok = fn.file.startswith("src/cli/") or fn.file == "src/lib.rs" or top.path.endswith("Environment::<std::io::Stdin, std::io::Stdout>::new")
         rep.ob("C08.R3", "stdio::%s::%s" % (top.path, t["callee"]["name"]), ok,
                "" if ok else "%s uses process stdio (%s) outside the CLI layer" % (top.path, t["callee"]["def"]), fn.loc(t["line"]), how="CLI layer")
-    rep.floor("C08.R3.stdio", n_stdio, 4, "stdio uses")
+    rep.floor("C08.R3.stdio", n_stdio, 2, "stdio uses")
 
     # ---- R5 stream pass-through (type level)
     n_pass = 0
@@ -256,7 +256,7 @@ def c08(ctx):
             rep.ob("C08.R5", "pass-through::%s->%s" % (top.path, d.rsplit("::", 1)[-1]), bad is None,
                    "" if bad is None else "%s hands %s a stream of type %s: a layer between the caller's stream and the interpreter can hold back output and swallow its write error" % (top.path, d, bad),
                    fn.loc(t["line"]), how="callee instantiated with the caller's stream type parameters")
-    rep.floor("C08.R5", n_pass, 4, "calls along the stream chain")
+    rep.floor("C08.R5", n_pass, 2, "calls along the stream chain")
 
     # ---- R4
     n = common.errflow(ctx, "C08.R4", in_exec, exceptions=EXEC_ERRFLOW_EXCEPTIONS)
